@@ -23,7 +23,7 @@ ASSUMPTIONS = [
 ]
 CONFIGURATIONS = ["BitcoinScriptTools / BitcoinScriptStreamer / IntStreamer (shared by every registered network: "
                   "no symbol file overrides script_tools); text round trip run through network.script of BTC, LTC, BCH, XTN"]
-UNEXPLORED = ["pushes longer than 70000 bytes", "integers of magnitude >= 2^71 other than the listed powers of two up to 2^127",
+UNEXPLORED = ["pushes longer than 16 MiB + 1 byte", "integers of magnitude >= 2^71 other than the listed powers of two up to 2^127",
               "script text written by hand (lower-case names, names without OP_ prefix, quoted strings, decimal literals): "
               "only text produced by disassemble, and the bare opcode names, are compiled"]
 
@@ -218,6 +218,19 @@ def _check_truncated(script, pc, what):
     if seen is None or seen[1] is not None:
         _bad("push:short-length-field-read-as-empty-push" if short_len_field else "push:truncated-data-accepted",
              "%s: script_tools.get_opcodes yields %r for truncated push %s" % (what, seen, script.hex()[:80]))
+    # ... also when minimal pushes are demanded: a push that runs off the end is malformed before its encoding can be
+    # judged (Core's GetOp fails before CheckMinimalPush is consulted), whatever its declared length
+    try:
+        seen_min = None
+        for op2, d2, pc2, npc2 in ST.get_opcodes(script, pc=pc, verify_minimal_data=True):
+            seen_min = (op2, d2)
+            break
+    except ScriptError as ex:
+        _bad("push:truncated-reported-as-non-minimal", "%s: get_opcodes(verify_minimal_data=True) raises %s for the truncated push %s; "
+             "without the flag it is reported as an instruction without data" % (what, ex, script.hex()[:80]))
+    if seen_min is None or seen_min[1] is not None:
+        _bad("push:truncated-data-accepted", "%s: get_opcodes(verify_minimal_data=True) yields %r for truncated push %s" % (
+            what, seen_min, script.hex()[:80]))
     return "cut-in-length-field" if short_len_field else "cut-in-data" if len(script) - pc - 1 > w or w == 0 else "cut-after-length-field"
 
 
@@ -326,7 +339,7 @@ def nt_push(case, labels):
 
 
 def cases_push_lengths(tier):
-    for n in list(range(0, 601)) + [65534, 65535, 65536, 65537, 70000]:
+    for n in list(range(0, 601)) + [65534, 65535, 65536, 65537, 70000, 2**20, 2**21 + 1, 2**22 + 5, 2**24 + 1]:
         fills = [0x00, 0xa5, "counter"] if n <= 600 else ["counter"]
         for f in fills:
             yield {"len": n, "fill": f}
@@ -518,7 +531,7 @@ SUBCHECKS = [
     SubCheck("numbytes_generated", o_numbytes, strategy=s_numbytes, budget=(6000, 400000), nontrivial=nt_numbytes,
              rule="byte strings of length 0..9 with the last two bytes drawn from {00,7f,80,ff,...}; same oracle"),
     SubCheck("pushes_lengths", o_push, cases=cases_push_lengths, exhaustive=True, nontrivial=nt_push,
-             rule="data of every length 0..600 (3 contents) and 65534..65537, 70000; every single byte value (also at pc=3): "
+             rule="data of every length 0..600 (3 contents) and 65534..65537, 70000, 2^20, 2^21+1, 2^22+5, 2^24+1; every single byte value (also at pc=3): "
                   "compile_push_data == unique CheckMinimalPush-accepted encoding, get_opcode/get_opcodes read it back with and "
                   "without verify_minimal_data; every explicit push form (direct/PUSHDATA1/2/4) reads back and its MINIMALDATA "
                   "verdict equals CheckMinimalPush; non-trivial = length in {0,1,75,76,255,256,65535,65536}"),
